@@ -509,6 +509,37 @@ Fixpoint flat (shape idx : seq nat) : nat :=
   | _, _ => 0
   end.
 
+(* BatchRepeat index maps, any number k of batch dimensions.  rep = batch_repeat, pb = base batch shape left-padded with 1s
+   to the length of rep; the output batch shape is obs = [r_i * pb_i].  Row-major flat member indices:
+     rf : repeat index  (flat over rep),  bf : base member (flat over pb),  of_ : output member (flat over obs).
+   [repeat_member rf bf] is the output member with multi-index (r_i * pb_i + b_i)_i -- the element that the
+   view / permute / view of _move_repeat_batches_to_columns places in base member bf at column block rf
+   (transcription of the code and the proof of this reading: ModelLayout.v / ProofsLayout.v). *)
+Definition repeat_obs (rep pb : seq nat) : seq nat := [seq rb.1 * rb.2 | rb <- zip rep pb].
+Definition repeat_member (rep pb : seq nat) (rf bf : nat) : nat :=
+  flat (repeat_obs rep pb) [seq x.1.1 * x.2 + x.1.2 | x <- zip (zip (unflat rep rf) (unflat pb bf)) pb].
+Definition repeat_rf (rep pb : seq nat) (of_ : nat) : nat :=
+  flat rep [seq x.1 %/ x.2 | x <- zip (unflat (repeat_obs rep pb) of_) pb].
+Definition repeat_bf (rep pb : seq nat) (of_ : nat) : nat :=
+  flat pb [seq x.1 %% x.2 | x <- zip (unflat (repeat_obs rep pb) of_) pb].
+(* _move_repeat_batches_to_columns on the right-hand side (t columns per output member):
+   base member bf gets t * nrep columns, column j * nrep + rf = column j of output member (rf, bf) *)
+Definition repeat_rhs (rep pb : seq nat) (t : nat) (Rs : seq cols) : seq cols :=
+  mkseq (fun bf => flatten (mkseq (fun j => mkseq (fun rf => nth [::] (nth [::] Rs (repeat_member rep pb rf bf)) j)
+                                                  (prodn rep)) t)) (prodn pb).
+(* inv_quad_term.view(.., -1, 1, nrep) ; _move_repeat_batches_back(.., output_shape[-2] = 1).squeeze(-2):
+   value (of_, j) = base value (bf, j * nrep + rf) *)
+Definition repeat_iq_vals (rep pb : seq nat) (t : nat) (d : seq F) : seq (seq F) :=
+  mkseq (fun of_ => mkseq (fun j => nth (a0 A) d (repeat_bf rep pb of_ * (t * prodn rep) + j * prodn rep
+                                                   + repeat_rf rep pb of_)) t)
+        (prodn (repeat_obs rep pb)).
+
+(* Block wrappers: _add_batch_dim on the rhs (member g -> members g*k .. g*k+k-1) and the sum over the block dimension *)
+Definition block_rhs (il : bool) (k m : nat) (Rs : seq cols) : seq cols :=
+  flatten [seq mkseq (fun i => [seq (if il then rows_inter else rows_block) k m i r | r <- Rb]) k | Rb <- Rs].
+Definition block_iq_vals (k t nout : nat) (d : seq F) : seq F :=
+  flatten (mkseq (fun g => mkseq (fun j => sumn_ (fun i => nth (a0 A) d ((g * k + i) * t + j)) k) t) nout).
+
 Fixpoint balg (S : settings) (o : bop) (R : rhs_in) (logdet reduce : bool) (probes : cols)
   : result (out * out) :=
   match o with
@@ -519,7 +550,7 @@ Fixpoint balg (S : settings) (o : bop) (R : rhs_in) (logdet reduce : bool) (prob
       let m := bsize base in
       let bs := belast (head 0 bb) (behead bb) in
       let R' := if R is Some (isv, Rs) then
-                  Some (isv, flatten [seq mkseq (fun i => [seq (if il then rows_inter else rows_block) k m i r | r <- Rb]) k | Rb <- Rs])
+                  Some (isv, block_rhs il k m Rs)
                 else None in
       match balg S base R' logdet reduce probes with
       | RErr e => RErr e
@@ -532,8 +563,7 @@ Fixpoint balg (S : settings) (o : bop) (R : rhs_in) (logdet reduce : bool) (prob
                 if R is Some _ then
                   if reduce then OVal bs (sum_groups k d)                       (* view( *base.batch_shape).sum(-1) *)
                   else OVal (bs ++ [:: t])                                         (* view( *base.batch_shape, t).sum(-2) *)
-                         (flatten (mkseq (fun g => mkseq (fun j => sumn_ (fun i => nth (a0 A) d ((g * k + i) * t + j)) k) t)
-                                         (prodn bs)))
+                         (block_iq_vals k t (prodn bs) d)
                 else OVal bs (zeros (prodn bs))   (* SPECIFIED placeholder; pinned code: view error (C05-block-cg-norhs) *)
             | _ => iq
             end in
@@ -551,17 +581,10 @@ Fixpoint balg (S : settings) (o : bop) (R : rhs_in) (logdet reduce : bool) (prob
   | BRepeat base rep =>
       let bb := bshape base in
       let pb := nseq (size rep - size bb) 1 ++ bb in
-      let obs := [seq rb.1 * rb.2 | rb <- zip rep pb] in
-      let nrep := prodn rep in
-      let nb := prodn pb in
+      let obs := repeat_obs rep pb in
       let t := rhs_ncols R in
-      (* output member index of (repeat multi-index r, base multi-index b): dimension-wise r_i * pb_i + b_i *)
-      let omember (rf bf : nat) : nat :=
-        flat obs [seq x.1.1 * x.2 + x.1.2 | x <- zip (zip (unflat rep rf) (unflat pb bf)) pb] in
-      let R' := if R is Some (isv, Rs) then
-                  (* _move_repeat_batches_to_columns: base column index = j * nrep + rf *)
-                  Some (isv, mkseq (fun bf => flatten (mkseq (fun j => mkseq (fun rf => nth [::] (nth [::] Rs (omember rf bf)) j) nrep) t)) nb)
-                else None in
+      (* _move_repeat_batches_to_columns *)
+      let R' := if R is Some (isv, Rs) then Some (isv, repeat_rhs rep pb t Rs) else None in
       match balg S base R' logdet false probes with
       | RErr e => RErr e
       | ROk (iq, ld) =>
@@ -570,12 +593,7 @@ Fixpoint balg (S : settings) (o : bop) (R : rhs_in) (logdet reduce : bool) (prob
             | OVal _ d =>
                 if d is [::] then iq else
                 if R is Some _ then
-                  let vals := mkseq (fun of_ =>
-                                let idx := unflat obs of_ in
-                                let rf := flat rep [seq x.1 %/ x.2 | x <- zip idx pb] in
-                                let bf := flat pb [seq x.1 %% x.2 | x <- zip idx pb] in
-                                mkseq (fun j => nth (a0 A) d (bf * (t * nrep) + j * nrep + rf)) t) (prodn obs) in
-                  mk_iq obs t reduce vals
+                  mk_iq obs t reduce (repeat_iq_vals rep pb t d)
                 else OVal obs (zeros (prodn obs))  (* SPECIFIED placeholder; pinned code: view error (C05-repeat-cg-norhs) *)
             | _ => iq
             end in
@@ -585,10 +603,8 @@ Fixpoint balg (S : settings) (o : bop) (R : rhs_in) (logdet reduce : bool) (prob
                 if d is [::] then ld else
                 (* logdet_term.repeat( *batch_repeat): also applied to the 0-d zero returned when logdet=False *)
                 let psh := nseq (size rep - size sh) 1 ++ sh in
-                let rsh := [seq rb.1 * rb.2 | rb <- zip rep psh] in
-                OVal rsh (mkseq (fun of_ =>
-                              let idx := unflat rsh of_ in
-                              nth (a0 A) d (flat psh [seq x.1 %% x.2 | x <- zip idx psh])) (prodn rsh))
+                let rsh := repeat_obs rep psh in
+                OVal rsh (mkseq (fun of_ => nth (a0 A) d (repeat_bf rep psh of_)) (prodn rsh))
             | _ => ld
             end in
           ROk (iq', ld')
